@@ -169,6 +169,7 @@ def finish(ck, prog, explanation, not_decided, extra_cov=None):
                 'distinct = distinct (rule, function, site) triples',
         'samples': samples,
         'instances_per_rule': counts,
+        'instance_minimums': dict(ck.mins),
         'canaries_flagged': [c.as_dict() for c in ck.canaries if c.verdict == VIOLATION][:60],
         'units_analysed': [u.replace(REPO + '/', '') for u in prog.units],
         'functions_analysed': len(prog.funcs),
